@@ -31,6 +31,7 @@ type Graph struct {
 	assignCount map[*types.Var]int
 	assumedFn   func(Fact) bool // set while a query with Assume runs
 	flagIx      map[*types.Var]int
+	intFlag     map[*types.Var]bool // tracked flags of integer type that only ever hold the constants 0 and 1
 	iifeAssigns map[*ast.ExprStmt][]*types.Var // variables assigned inside a literal that the statement calls on the spot
 	entryVals   map[*GNode]map[Val]bool // valuations with which each node is reached from the entry (lazily, no assumption)
 	seeding     bool
@@ -283,6 +284,65 @@ func (g *Graph) findFlags() {
 			return true
 		})
 	}
+	// integer locals that are only ever assigned the constants 0 and 1 (a found-flag written as an offset)
+	zeroOne := map[*types.Var]bool{}
+	notZeroOne := map[*types.Var]bool{}
+	g.intFlag = map[*types.Var]bool{}
+	ast.Inspect(g.Body, func(m ast.Node) bool {
+		mark := func(l ast.Expr, r ast.Expr, plain bool) {
+			id, ok := ast.Unparen(l).(*ast.Ident)
+			if !ok {
+				return
+			}
+			var obj types.Object = info.Defs[id]
+			if obj == nil {
+				obj = info.Uses[id]
+			}
+			v, ok := obj.(*types.Var)
+			if !ok || v.IsField() {
+				return
+			}
+			if b, ok := v.Type().Underlying().(*types.Basic); !ok || b.Info()&types.IsInteger == 0 {
+				return
+			}
+			if k, isC := ConstInt(info, r); plain && r != nil && isC && (k == 0 || k == 1) {
+				zeroOne[v] = true
+			} else {
+				notZeroOne[v] = true
+			}
+		}
+		switch t := m.(type) {
+		case *ast.AssignStmt:
+			for i, l := range t.Lhs {
+				if len(t.Lhs) == len(t.Rhs) {
+					mark(l, t.Rhs[i], t.Tok == token.ASSIGN || t.Tok == token.DEFINE)
+				} else {
+					mark(l, nil, false)
+				}
+			}
+		case *ast.IncDecStmt:
+			mark(t.X, nil, false)
+		case *ast.RangeStmt:
+			if t.Key != nil {
+				mark(t.Key, nil, false)
+			}
+			if t.Value != nil {
+				mark(t.Value, nil, false)
+			}
+		case *ast.ValueSpec:
+			for i, nm := range t.Names {
+				if len(t.Values) == len(t.Names) {
+					mark(nm, t.Values[i], true)
+				} else if len(t.Values) != 0 {
+					mark(nm, nil, false)
+				}
+			}
+		}
+		return true
+	})
+	for v := range notZeroOne {
+		delete(zeroOne, v)
+	}
 	note := func(e ast.Expr, here bool) {
 		id, ok := ast.Unparen(e).(*ast.Ident)
 		if !ok {
@@ -307,6 +367,15 @@ func (g *Graph) findFlags() {
 				}
 				return
 			}
+		}
+		if b, ok := v.Type().Underlying().(*types.Basic); ok && b.Info()&types.IsInteger != 0 && zeroOne[v] {
+			if here {
+				cand[v] = true
+				g.intFlag[v] = true
+			} else {
+				bad[v] = true
+			}
+			return
 		}
 		if b, ok := v.Type().Underlying().(*types.Basic); (!ok || b.Kind() != types.Bool) && !isErr {
 			return
@@ -579,6 +648,57 @@ func (g *Graph) flagOf(e ast.Expr) (int, bool) {
 	return i, ok
 }
 
+func (g *Graph) isIntFlag(e ast.Expr) bool {
+	id, ok := ast.Unparen(e).(*ast.Ident)
+	if !ok {
+		return false
+	}
+	var obj types.Object = g.Info.Uses[id]
+	if obj == nil {
+		obj = g.Info.Defs[id]
+	}
+	v, ok := obj.(*types.Var)
+	return ok && g.intFlag[v]
+}
+
+// intTest decomposes a comparison of a 0/1 integer flag with a constant: the flag's index and the flag value
+// (true: 1, false: 0) for which the comparison holds.
+func (g *Graph) intTest(e ast.Expr) (int, bool, bool) {
+	b, ok := ast.Unparen(e).(*ast.BinaryExpr)
+	if !ok {
+		return 0, false, false
+	}
+	op, x, y := b.Op, b.X, b.Y
+	if _, isC := ConstInt(g.Info, x); isC {
+		x, y = y, x
+		switch op {
+		case token.LSS:
+			op = token.GTR
+		case token.LEQ:
+			op = token.GEQ
+		case token.GTR:
+			op = token.LSS
+		case token.GEQ:
+			op = token.LEQ
+		}
+	}
+	if !g.isIntFlag(x) {
+		return 0, false, false
+	}
+	k, isC := ConstInt(g.Info, y)
+	if !isC {
+		return 0, false, false
+	}
+	i, _ := g.flagOf(x)
+	switch {
+	case op == token.EQL && k == 0, op == token.LSS && k == 1, op == token.LEQ && k == 0, op == token.NEQ && k == 1:
+		return i, false, true
+	case op == token.EQL && k == 1, op == token.GTR && k == 0, op == token.GEQ && k == 1, op == token.NEQ && k == 0:
+		return i, true, true
+	}
+	return 0, false, false
+}
+
 func (g *Graph) constBool(e ast.Expr) (bool, bool) {
 	tv, ok := g.Info.Types[e]
 	if !ok || tv.Value == nil || tv.Value.Kind() != constant.Bool {
@@ -603,6 +723,16 @@ func (g *Graph) eval(e ast.Expr, v Val) int {
 		switch r := v.get(i); {
 		case r == tvU:
 		case (r == tvT) == nonNil:
+			return tvT
+		default:
+			return tvF
+		}
+	}
+	if i, set, ok := g.intTest(e); ok {
+		switch r := v.get(i); {
+		case r == tvU:
+			return tvU
+		case (r == tvT) == set:
 			return tvT
 		default:
 			return tvF
@@ -708,6 +838,12 @@ func (g *Graph) assume(e ast.Expr, want bool, v Val) Val {
 		}
 		return v.set(i, tvF)
 	}
+	if i, set, ok := g.intTest(e); ok {
+		if want == set {
+			return v.set(i, tvT)
+		}
+		return v.set(i, tvF)
+	}
 	switch t := e.(type) {
 	case *ast.UnaryExpr:
 		if t.Op == token.NOT {
@@ -767,6 +903,14 @@ func (g *Graph) transfer(n *GNode, v Val) Val {
 		}
 		if rhs == nil {
 			v = v.set(i, tvF) // zero value
+			return
+		}
+		if k, isC := ConstInt(g.Info, rhs); isC && g.isIntFlag(lhs) {
+			if k == 0 {
+				v = v.set(i, tvF)
+			} else {
+				v = v.set(i, tvT)
+			}
 			return
 		}
 		v = v.set(i, g.eval(rhs, v))
